@@ -703,6 +703,27 @@ static void sample_verify() {
   }
 }
 
+// Latent undersized small allocation (C01/C03): when the direct small-page table of one of this thread's heaps points at a page whose
+// blocks are smaller than the entry's size (read by sim/peek.c; nothing is reported from the peek alone), perform exactly that allocation
+// and judge the block it returns like any other: the violation reported is the real mi_heap_malloc handing out too small a block.
+extern "C" size_t sim_peek_stale_direct(const mi_heap_t* heap);
+static void latent_undersize_probe() {
+  if (!T->alloc_ok) return;
+  for (size_t i = 0; i < H.heaps.size(); i++) {
+    MHeap& m = H.heaps[i];
+    if (!m.alive || m.prog != T->prog || m.h == nullptr) continue;
+    const size_t req = sim_peek_stale_direct(m.h);
+    if (req == 0) continue;
+    sched_call_begin();
+    void* q = mi_heap_malloc(m.h, req);
+    if (q == nullptr) continue;
+    sched_set_passthrough(true); const size_t us = mi_usable_size(q); sched_set_passthrough(false);
+    if (us < req) sim_violation("usable_size", "mi_heap_malloc(%zu) after this operation returns %p with mi_usable_size %zu, less than requested: the heap's direct small-page table points at a page of a smaller size class", req, q, us);
+    for (auto& kv : H.live) { Block* b = kv.second; if ((uint8_t*)q < b->p + b->usable && b->p < (uint8_t*)q + req) sim_violation("overlap", "mi_heap_malloc(%zu) after this operation returns %p, inside live block #%llu (%p, %zu bytes)", req, q, (unsigned long long)b->id, (void*)b->p, b->usable); }
+    sched_call_begin(); mi_free(q);
+  }
+}
+
 static void exec_op(const Op& op, int idx) {
   T->cur_op = idx;
   os_set_context(T->prog, idx);
@@ -750,6 +771,7 @@ static void exec_op(const Op& op, int idx) {
   else run_oracle_op(op);
   sched_sb_flush();
   check_error_callbacks(op);
+  latent_undersize_probe();
   sample_verify();
   if (g_cfg.trace) {
     Block* tb = (op.slot >= 0 && op.slot < (int)H.slots.size() && c <= OP_cfree) ? H.slots[op.slot] : nullptr;
